@@ -18,7 +18,8 @@
 (*   pRep   processing delay it reports (honest: pRep = pAct)              *)
 (*   room   see above                                                      *)
 (*   keep   the outstation still indicates NEED_TIME after the write       *)
-(*   junk   0 none | k: the k-th reply carries unexpected objects          *)
+(*   junk   0 none | 1, 2: the k-th reply carries unexpected objects |     *)
+(*          3: the delay header of the first reply carries two objects     *)
 (***************************************************************************)
 EXTENDS Naturals, Integers, Sequences, TLC
 
@@ -45,7 +46,7 @@ Step(s) ==
             \* outstation: DELAY_MEASURE answered with g52v2 = reported delay after the real processing time
             [s EXCEPT !.pc = "m_delay", !.now = s.now + c.pAct + c.back]
       [] s.pc = "m_delay" ->
-            IF c.junk = 1 THEN Fail(s, "UnexpectedResponseHeaders")
+            IF c.junk \in {1, 3} THEN Fail(s, "UnexpectedResponseHeaders")
             ELSE LET interval == s.now - s.t0 IN
                  IF c.pRep > interval THEN Fail(s, "BadOutstationTimeDelay")
                  ELSE LET prop == (interval - c.pRep) \div 2
@@ -70,6 +71,24 @@ Step(s) ==
             ELSE [s EXCEPT !.res = "ok", !.pc = "done"]
       [] OTHER -> s
 
+-----------------------------------------------------------------------------
+(* The outstation's side of the LAN procedure over a history of requests (not only one clean run): operations        *)
+(*   "R"   RECORD_CURRENT_TIME (a new request)          "Rr"  byte-identical repetition of the previous request     *)
+(*   "W"   WRITE g50v3 with the time v (a new request)  "A1", "A2"  time passes (20 ms, 60 s)                        *)
+(* A repetition is answered from memory and not executed (C05), so the instant recorded is that of the most recent    *)
+(* RECORD_CURRENT_TIME that was executed; the time handed to the application by a following WRITE is v plus what      *)
+(* elapsed since that instant.  LanRun folds a history of [op, t] (t = the outstation's clock when the request        *)
+(* arrives) into the sequence of times the application must be handed (-1: the property does not say).               *)
+LanOps == {"R", "Rr", "W", "A1", "A2"}
+LanV == 5000
+RECURSIVE LanExpect(_, _, _)
+LanExpect(ops, rec, i) ==
+    IF i > Len(ops) THEN <<>>
+    ELSE LET o == ops[i] IN
+         CASE o.op = "R" -> <<-1>> \o LanExpect(ops, o.t, i + 1)
+           [] o.op = "W" -> <<IF rec >= 0 THEN LanV + (o.t - rec) ELSE -1>> \o LanExpect(ops, -1, i + 1)
+           [] OTHER -> <<-1>> \o LanExpect(ops, rec, i + 1)
+
 RECURSIVE RunAll(_)
 RunAll(s) == IF s.pc = "done" THEN s ELSE RunAll(Step(s))
 
@@ -85,7 +104,7 @@ Accurate(s) == (s.res = "ok" /\ Honest(s.c)) => (s.wrote /\ Err(s) <= Bound(s.c)
 MustFail(c, s) == c.keep \/ c.junk # 0 \/ s.iin2
 FailsWhenItMust(s) == MustFail(s.c, s) => s.res # "ok"
 \* a reported processing delay exceeding the round trip
-DelayTooLarge(c) == c.proc = "nonlan" /\ c.junk # 1 /\ c.pRep > c.fwd + c.pAct + c.back
+DelayTooLarge(c) == c.proc = "nonlan" /\ c.junk \notin {1, 3} /\ c.pRep > c.fwd + c.pAct + c.back
 FailsOnBadDelay(s) == DelayTooLarge(s.c) => s.res = "BadOutstationTimeDelay"
 \* and nothing else fails
 SucceedsOtherwise(s) ==
